@@ -46,13 +46,9 @@ def modelStatus (t : Table) (p : Str) : String :=
         | some ch => if ch.max ≤ 0 then "panic" else go rest
     go p
 
-/-- is `dna` a possible output of the model for protein `p` (some in-range draws produce it)? -/
-def modelMember (t : Table) (p : Str) (dna : Str) : Bool :=
-  dna.length == 3 * p.length &&
-  (p.zip (chunks3 dna)).all fun (aa, c) =>
-    match eligible t [aa] with
-    | some items => items.any fun it => it.1 == c && it.2 > 0
-    | none => false
+/-- is `dna` a possible output of the model for protein `p` (some in-range draws produce it)?
+`member` of the model file; Props/C07 `optimize_possible_iff` proves it is exactly that set. -/
+def modelMember (t : Table) (p : Str) (dna : Str) : Bool := member t p dna
 
 /-- the exact share test and the binary64 one agree on every codon of the table (cross-check of the float assumption) -/
 def floatAgrees (t : Table) : Bool :=
